@@ -37,12 +37,16 @@ EIns  == UNION { [1..n -> [asset : {"A", "B"}, v : 1..2]] : n \in 1..2 }
 \* zero values are tried on every script class: standard, OP_RETURN, empty, exactly the maximal size (still spendable), one byte more
 EOutKinds == [asset : {"A", "B", "N", "T"}, v : 1..2, script : {"std", "unspendable"}]
              \cup [asset : {"A", "B", "N", "T"}, v : {0}, script : {"std", "unspendable", "empty", "big10000", "big10001"}]
-EOuts == UNION { [1..n -> EOutKinds] : n \in 1..ExplMax }
+EOuts == UNION { [1..n -> EOutKinds] : n \in 1..(IF ExplMax > 2 THEN 2 ELSE ExplMax) }
+\* three outputs (thorough): one input, without the second plain asset, to stay below TLC's bound on the size of an enumerated set
+EOuts3 == IF ExplMax > 2 THEN [1..3 -> { k \in EOutKinds : k.asset # "B" }] ELSE {}
+EIns1 == { i \in EIns : Len(i) = 1 }
 MkE(ins, outs, isson) ==
   [ins |-> [k \in DOMAIN ins |-> I(ins[k].asset, ins[k].v, "expl", 0, 0)],
    iss |-> IF isson = 0 THEN NoIss ELSE IF isson = 1 THEN Iss(1, FALSE, 0, 0, FALSE, 0) ELSE IF isson = 2 THEN Iss(0, FALSE, 0, 1, FALSE, 0) ELSE Iss(1, FALSE, 0, 1, FALSE, 0),
    outs |-> [k \in DOMAIN outs |-> [O(outs[k].asset, outs[k].v) EXCEPT !.script = outs[k].script]]]
-ExplicitCases == { LET t == MkE(i, o, n) IN [ins |-> i, outs |-> o, iss |-> n, verdict |-> Verify(t, t.ins)] : i \in EIns, o \in EOuts, n \in 0..3 }
+ECase(i, o, n) == LET t == MkE(i, o, n) IN [ins |-> i, outs |-> o, iss |-> n, verdict |-> Verify(t, t.ins)]
+ExplicitCases == { ECase(i, o, n) : i \in EIns, o \in EOuts, n \in 0..3 } \cup { ECase(i, o, n) : i \in EIns1, o \in EOuts3, n \in 0..3 }
 
 GInit == tx = (CHOOSE s \in Sk : TRUE) /\ pos = 1 /\ phase = "x"
 GNext == UNCHANGED vars
